@@ -28,6 +28,7 @@ type Rec struct {
 	V       int    `json:"v"`
 	Ks      []int  `json:"ks,omitempty"`
 	Vs      []int  `json:"vs,omitempty"`
+	S       string `json:"s,omitempty"`
 }
 
 type Violation struct {
